@@ -19,6 +19,19 @@ fn keys(path: &str, tree: &Tree, cj: &dyn Fn() -> Json) -> Result<[u8; 8], crate
     // "the owned schema" of a static one is its conversion: the run-time key of that must be the compile-time key too
     let converted = no_panic(|| postcard_schema::schema::owned::OwnedDataModelType::from(st)).map_err(|p| fail("key", format!("conversion panicked: {}", p), cj()))?;
     let k_conv = no_panic(|| Key::for_owned_schema_path(path, &converted).to_bytes()).map_err(|p| fail("key", format!("run-time hasher panicked: {}", p), cj()))?;
+    // ... and so is the conversion of a copy of the root that lives on this stack frame (same address for every case)
+    {
+        let local: postcard_schema::schema::DataModelType = *st;
+        let conv2 = no_panic(|| postcard_schema::schema::owned::OwnedDataModelType::from(&local)).map_err(|p| fail("key", format!("conversion panicked: {}", p), cj()))?;
+        let k2 = no_panic(|| Key::for_owned_schema_path(path, &conv2).to_bytes()).map_err(|p| fail("key", format!("run-time hasher panicked: {}", p), cj()))?;
+        if k2 != k_const {
+            return Err(fail(
+                "key",
+                format!("compile-time hasher gives {} but the run-time hasher on the owned conversion of a stack copy of the same schema gives {}", hex(&k_const), hex(&k2)),
+                cj(),
+            ));
+        }
+    }
     if k_const != k_conv {
         return Err(fail(
             "key",
